@@ -38,6 +38,9 @@ package swarm
 //@     b.successes == cnt(b.dialResults, 0, len(b.dialResults)) &&
 //@     b.state == st(len(b.dialResults), b.successes, b.N, b.MinSuccesses)
 
+// wf is the monitor invariant of the counter's mutex: assumed when the lock is taken, re-established at every Unlock
+//@ lockinv BlackHoleSuccessCounter.mu(b *BlackHoleSuccessCounter) = wf(b)
+
 //@ func (b *BlackHoleSuccessCounter) updateState
 //@ prop C20
 //@ ensures b.state == st(len(b.dialResults), b.successes, b.N, b.MinSuccesses)
@@ -51,7 +54,6 @@ package swarm
 
 //@ func (b *BlackHoleSuccessCounter) RecordResult
 //@ prop C20
-//@ requires wf(b)
 //@ instance cntUnfold(b.dialResults, 0, len(b.dialResults))
 //@ instance cntEmpty(b.dialResults, 0, len(b.dialResults))
 //@ instance cntSlide(old(b.dialResults), b.dialResults, 0, len(old(b.dialResults)))
@@ -74,7 +76,6 @@ package swarm
 
 //@ func (b *BlackHoleSuccessCounter) HandleRequest
 //@ prop C20
-//@ requires wf(b)
 //@ ensures wf(b) && b.requests == old(b.requests) + 1
 //@ ensures result == blackHoleStateAllowed <==> b.state == blackHoleStateAllowed
 //@ ensures b.state == blackHoleStateProbing ==> result == blackHoleStateProbing
@@ -87,3 +88,30 @@ package swarm
 //@ prop C20
 //@ ensures result == b.state
 //@ modifies nothing
+
+// ---------------------------------------------------------------------------
+// C20: the detector around the counters (read-only mode, which addresses are affected)
+
+//@ func isProtocolAddr
+//@ prop C20 C10 C12
+//@ trusted
+//@ pure
+
+//@ func (d *blackHoleDetector) getFilterState
+//@ prop C20
+//@ ensures d.readOnly ==> f.requests == old(f.requests) && (result == blackHoleStateAllowed <==> f.state == blackHoleStateAllowed) &&
+//@         (result == blackHoleStateAllowed || result == blackHoleStateBlocked)
+//@ ensures !d.readOnly ==> f.requests == old(f.requests) + 1 && (result == blackHoleStateAllowed <==> f.state == blackHoleStateAllowed) &&
+//@         (f.state == blackHoleStateProbing ==> result == blackHoleStateProbing) &&
+//@         (f.state == blackHoleStateBlocked ==> (result == blackHoleStateProbing <==> f.requests % f.N == 0))
+//@ ensures f.state == old(f.state) && f.successes == old(f.successes) && f.dialResults == old(f.dialResults)
+//@ modifies f.requests
+
+//@ func (d *blackHoleDetector) RecordResult
+//@ prop C20
+//@ ensures d.readOnly || !manet.IsPublicAddr(addr) ==> !called(RecordResult, 0) && !called(RecordResult, 1)
+//@ ensures called(RecordResult, 0) ==> arg(RecordResult, 0, 0) == d.udp && isProtocolAddr(addr, ma.P_UDP) && arg(RecordResult, 0, 1) == success
+//@ ensures called(RecordResult, 1) ==> arg(RecordResult, 1, 0) == d.ipv6 && isProtocolAddr(addr, ma.P_IP6) && arg(RecordResult, 1, 1) == success
+//@ ensures !d.readOnly && manet.IsPublicAddr(addr) && d.udp != nil && isProtocolAddr(addr, ma.P_UDP) ==> called(RecordResult, 0)
+//@ ensures !d.readOnly && manet.IsPublicAddr(addr) && d.ipv6 != nil && isProtocolAddr(addr, ma.P_IP6) ==> called(RecordResult, 1)
+//@ noframe
